@@ -155,6 +155,27 @@ pub fn run(p: &Params) -> Run {
         let lines = gen_input(&mut rng, nl, 15, false);
         one_case_joined(&mut run, &sch.defs, &gq.text, gq.is_aggregate, &lines, &joined_bytes, &jp);
     }
+    // … and aimed at the fan-out: aggregates over a join whose WHERE looks at a joined-side column, joined files in which every key
+    // has two to four partners that pass and fail the WHERE in every order (a line whose LAST partner fails still changes the table)
+    for _ in 0..p.n(120, 3000) {
+        let sch = gen_schema(&mut rng);
+        let cond = *rng.pick(&["u.v > 0", "u.v >= 2", "u.y = 'x'", "u.v < 0 OR u.y IS NULL", "NOT (u.v > 0)"]);
+        let kind = if rng.chance(1, 4) { "OUTER" } else { "INNER" };
+        let text = match rng.below(3) {
+            0 => format!("SELECT COUNT(*), SUM(u.v) FROM t {} JOIN u::'{}' ON t.k = u.k WHERE {}", kind, jp, cond),
+            1 => format!("SELECT t.k, COUNT(*), MAX(u.v), MIN(t.v) FROM t {} JOIN u::'{}' ON t.k = u.k WHERE {} GROUP BY t.k", kind, jp, cond),
+            _ => format!("SELECT COUNT(u.y), COUNT(DISTINCT u.v) FROM t {} JOIN u::'{}' ON t.k = u.k WHERE {} HAVING COUNT(*) > 0", kind, jp, cond),
+        };
+        let mut jlines: Vec<String> = Vec::new();
+        for key in ["a", "b", "ab"] {
+            for _ in 0..rng.below(5) { jlines.push(format!("#{};{};{}", key, rng.pick(&["-2", "-1", "1", "2", "3", ""]), rng.pick(&["x", "y", ""]))); }
+        }
+        let joined_bytes = join_lines(&jlines);
+        std::fs::write(&jpath, &joined_bytes).unwrap();
+        let lines: Vec<String> = (0..1 + rng.below(6)).map(|_| format!("{};{};{};0.5;x;", rng.pick(&["a", "b", "ab", "c"]), rng.range(-2, 9), rng.below(3))).collect();
+        run.count("join-where-on-joined-column");
+        one_case_joined(&mut run, &sch.defs, &text, true, &lines, &joined_bytes, &jp);
+    }
     let _ = std::fs::remove_file(&jpath);
     // sixth stream: what the follow executor SHOWS (screen after every refresh = batch output over the lines so far)
     crate::c11x::executor_stream(&mut run, &mut rng, p.n(150, 3_000));
